@@ -740,9 +740,10 @@ def c09_scenarios(rng=None):
     # torn-list detector (push --delete): the delete list is far longer than a pipe buffer page, and every
     # proper prefix of a stale name (beyond the directory) names an in-sync file, so a list cut anywhere
     # inside a name makes the orphaned remote `rm` hit a file outside the plan
-    keep = {"L/" + "x" * n: (b"k%d" % n, old) for n in range(1, 41)}
-    stale = {"L/" + "x" * n: (b"s", old) for n in range(41, 131)}
-    S["long-delete-list-prefix-names"] = dict(src=dict(keep, **{"new": (b"n", new)}), dst=dict(keep, **stale), delete=True)
+    for tag, plen in (("a", 130), ("b", 97)):
+        keep = {"L/" + "x" * n: (b"k%d" % n, old) for n in range(1, plen + 1)}
+        stale = {"L/" + "x" * plen + c: (b"s", old) for c in "abcdefghijklmnopqrstuvwxyz0123456789ABCDEFGHIJKLMNOPQRSTUVWXYZ"}
+        S["long-delete-list-prefix-names-" + tag] = dict(src=dict(keep, **{"new": (b"n", new)}), dst=dict(keep, **stale), delete=True)
     S["700K-over-older-delete"] = dict(src={"big7": (k700, new), "k": (b"k", new)}, dst={"big7": (k700[:1000], old), "stale/x": (b"s", old)}, delete=True)
     return S
 
@@ -870,7 +871,7 @@ def _c09_worker(args):
         cnt("kills_inside_a_data_stream[%s]" % direction, inside)
         for stt in states:
             res["distinct"].add("%s|%s|%x" % (name, direction, hash(stt) & 0xFFFFFFFF))
-        res["samples"].append({"scenario": name, "direction": direction, "kill_points": k - 1, "post_crash_states": len(states), "transfer": sorted(transfer), "delete": sorted(dele)})
+        res["samples"].append({"scenario": name, "direction": direction, "kill_points": k - 1, "post_crash_states": len(states), "transfer": [t[:40] for t in sorted(transfer)[:4]], "delete": [t[:40] for t in sorted(dele)[:4]], "n_transfer": len(transfer), "n_delete": len(dele)})
         ow.destroy()
         rmtree(save)
     return res
